@@ -174,7 +174,8 @@ def apalache_inductive(size: int, rule: str, timeout=1500):
 
     def go(init, inv, length):
         p = subprocess.run(["apalache-mc", "check", "--cinit=CInit", f"--init={init}", f"--inv={inv}", f"--length={length}", f"--out-dir={d}/out", mc + ".tla"],
-                           cwd=d, capture_output=True, text=True, timeout=timeout)
+                           cwd=d, capture_output=True, text=True, timeout=timeout,
+                           env=dict(os.environ, TMPDIR=d))      # the launcher makes a SANY* scratch directory with mktemp: keep it inside the run's own directory
         return "NoError" if "The outcome is: NoError" in p.stdout else "Error" if "The outcome is: Error" in p.stdout else "FAILED:" + p.stdout[-300:]
 
     res = {"base": go("Init", "IndInv", 0), "step": go("IndInit", "IndInv", 1),
